@@ -7,6 +7,8 @@
 (*         dec = abstract value of real Decode(bytes)                      *)
 (*   l32   addr (20 bytes), sym = symbols of the real BytesToLisk32 text   *)
 (*   l32v  sym (38 symbols), ok = real Lisk32ToBytes accepted the text     *)
+(*   l32t  text (character codes of an address text: case, prefix and      *)
+(*         alphabet probes), ok = real Lisk32ToBytes accepted the text     *)
 (* The monitor recomputes each result with the reference codec of          *)
 (* Wire.tla; a difference is printed as <<"MISMATCH", line, what, ...>>    *)
 (* and the monitor goes on (no record changes any state but the counter).  *)
@@ -32,6 +34,7 @@ Step ==
          /\ (IF r.ok THEN Check("decode", e.dec, r.v) ELSE TRUE)
     [] e.op = "l32" -> Check("lisk32-text", e.sym, L32Encode(e.addr))
     [] e.op = "l32v" -> Check("lisk32-verdict", e.ok, B(L32Valid(e.sym)))
+    [] e.op = "l32t" -> Check("lisk32-textverdict", e.ok, B(L32TextValid(e.text)))
 
 TInit == l = 1
 TNext == l <= Len(TraceLog) /\ Step /\ l' = l + 1
